@@ -500,6 +500,30 @@ def shard(ctx: Ctx) -> None:
                 base = {"op": name, "addr": A, "handle": H1}
                 one(ctx, {"ops": [base], "replies": [["conn", A, 0, reason]]}, "drop-reason-codes")
     cleanup_inside_state_callback(ctx)
+    # scale: dozens of operations outstanding at once on distinct handles of two peripherals, answered in a shuffled order, one per chunk or
+    # all in one chunk; a few never answered (timeout), one peripheral dropping in the middle
+    for n_ops in ((24, 60, 150) if ctx.thorough else (24, 60)):
+        for variant in range(4):
+            idx += 1
+            if not ctx.mine(idx):
+                continue
+            r2 = rng.__class__(f"C16/scale/{n_ops}/{variant}")
+            ops_ = []
+            for k in range(n_ops):
+                name = ("read", "write", "read_descriptor", "write_descriptor", "start_notify")[k % 5]
+                ops_.append({"op": name, "addr": A if k % 3 else B, "handle": 1000 + k // 5})
+            order = list(range(n_ops))
+            r2.shuffle(order)
+            unanswered = set(order[:3])
+            replies = [["T", i] for i in order if i not in unanswered]
+            if variant == 2:
+                replies.insert(len(replies) // 2, ["conn", B, 0])
+            if variant == 3:
+                replies = [x for i in order if i not in unanswered for x in (["T_fa", i], ["T", i])]
+            case = {"ops": ops_, "replies": replies, "values": list(DEFAULT_VALUES)}
+            if variant == 1:
+                case["groups"] = [len(replies)]
+            one(ctx, case, "many-operations-at-once")
     # cancellation of every operation at several instants, followed by matching traffic (leftover probe)
     for name in OPS:
         for at in (0.0, 0.005, 0.5):
